@@ -32,10 +32,12 @@ from .core import AnalysisError, txt
 class ModelRaise(Exception):
     """the interpreted code raises (name of the exception class)"""
 
-    def __init__(self, name, detail=""):
+    def __init__(self, name, detail="", args=None):
         super().__init__(f"{name}: {detail}")
         self.name = name
         self.detail = detail
+        #: the `args` of the modelled exception object
+        self.model_args = (detail,) if args is None else tuple(args)
 
 
 # ----------------------------------------------------------------------
@@ -622,7 +624,10 @@ class Interp:
                             if h.name:
                                 self.assign(
                                     ast.Name(id=h.name, ctx=ast.Store()),
-                                    Namespace("exc", args=(e.detail,)),
+                                    Namespace("exc", args=e.model_args,
+                                              __class__=Namespace(
+                                                  "exc_class",
+                                                  __name__=e.name)),
                                     *env)
                             self.block(h.body, *env)
                             break
